@@ -31,14 +31,29 @@ def handler(c):
     if c.get("energies") is not None:
         extra["energies"] = np.array(c["energies"], dtype=float)
     atoms.calc = Committee(extra)
-    sim = AdaptiveForceBias(atoms, c["lo"], c["hi"], temperature=300.0, scheme=c["scheme"],
-                            reference_variance=c["r"], update_function=c["fn"], seed=3)
+    late = c.get("late") or {}
+    sim = AdaptiveForceBias(atoms, late.get("lo", c["lo"]), late.get("hi", c["hi"]), temperature=300.0, scheme=late.get("scheme", c["scheme"]),
+                            reference_variance=late.get("r", c["r"]), update_function=late.get("fn", c["fn"]), seed=3)
     initial_delta = float(sim.delta)
     atoms.get_potential_energy()
+    if late:
+        # the object is first used with other settings, then re-tuned through its public attributes
+        sim.update_delta()
+        sim.min_delta, sim.max_delta, sim.reference_variance, sim.scheme, sim.update_function = c["lo"], c["hi"], c["r"], c["scheme"], c["fn"]
     sim.update_delta()
+    # the variance the committee data stand for, computed independently (two-pass standard deviation)
+    if c["scheme"] == "forces" and c.get("forces_comm") is not None:
+        fc = np.array(c["forces_comm"], dtype=float)
+        with np.errstate(all="ignore"):
+            vind = np.std(fc, axis=0) / np.mean(np.abs(fc), axis=0)
+    elif c["scheme"] == "energy" and c.get("energies") is not None:
+        vind = np.std(np.array(c["energies"], dtype=float)) / n
+    else:
+        vind = c["r"]
     v = np.broadcast_to(np.asarray(sim.variation_coef, dtype=float), (n, 3) if c["scheme"] == "forces" else ())
     d = np.broadcast_to(np.asarray(sim.delta, dtype=float), v.shape)
-    return {"v": np.ravel(v).tolist(), "delta": np.ravel(d).tolist(), "initial_delta": initial_delta,
+    vind = np.broadcast_to(np.asarray(vind, dtype=float), v.shape)
+    return {"v_impl": np.ravel(v).tolist(), "v": np.ravel(vind).tolist(), "delta": np.ravel(d).tolist(), "initial_delta": initial_delta,
             "hexv": [float(x).hex() for x in np.ravel(v)], "hexd": [float(x).hex() for x in np.ravel(d)]}
 
 
